@@ -6,9 +6,9 @@ EXTENDS Viewport, TLC
 CONSTANTS Full
 VARIABLES kind, e, vb, align, mos, exp
 vars == <<kind, e, vb, align, mos, exp>>
-Sizes   == IF Full THEN {Q(1, 64), Q(1, 2), R(1), R(3), R(10), R(48), R(96), R(250), R(1024), R(16384)}
+Sizes   == IF Full THEN {Q(1, 8), Q(1, 2), R(1), R(3), R(10), R(48), R(96), R(250), R(1024), R(2048)}
            ELSE {Q(1, 2), R(3), R(48), R(250)}
-VbSizes == IF Full THEN {Q(1, 64), Q(1, 2), R(1), R(3), R(10), R(250), R(1024), R(16384)} ELSE {Q(1, 2), R(3), R(10), R(250)}
+VbSizes == IF Full THEN {Q(1, 8), Q(1, 2), R(1), R(3), R(10), R(250), R(1024), R(2048)} ELSE {Q(1, 2), R(3), R(10), R(250)}
 Origins == IF Full THEN {<<R(0), R(0)>>, <<Q(-7, 2), R(5)>>, <<R(5), Q(-7, 2)>>, <<R(100), R(40)>>} ELSE {<<R(0), R(0)>>, <<Q(-7, 2), R(5)>>}
 EOrig   == {<<R(0), R(0)>>, <<R(5), R(-3)>>}
 Init ==
